@@ -80,6 +80,22 @@ def check(repo, rep, tier):
     rp.r_call_locals(repo, rep, 'R1.3')
     if ti:
         rp.r_callbacks(repo, rep, 'R1.3')
+        # every sentence of a batch is searched with the configuration and tables of the call (nothing is re-read or
+        # consumed per sentence)
+        rp.r_sentence_loop(repo, rep, 'R1.3', ti)
+    rp.r_config_once(repo, rep, 'R1.3')
+    from .c11 import r_state
+    r_state(repo, rep, 'R1.3')
+    rep.rule('R1.6', 'the set of admitted supertags is the one the property names: pruning_size best, beta filter when enabled (shared with C16)')
+    if len(m.by_kind.get('leaf', [])) == 1:
+        rc.r_beam(m, rep, 'R1.6')
+    else:
+        rep.violation('R1.6', 'depccg/parsing.h:%s parse_sentence' % m.ps.line, 'leaf:only-from-beam', 'leaf items are pushed from %d sites' % len(m.by_kind.get('leaf', [])))
+    rep.rule('R1.7', 'the rule functions are functions of the two categories: the grammar modules keep no table that a call fills and a later call reads')
+    from ..lints import r_module_state
+    r_module_state(repo, rep, 'R1.7', ['depccg/grammar/en.py', 'depccg/grammar/ja.py'],
+                   'an answer remembered from an earlier call (another sentence, another pair that shares the key) replaces what the rules give for this pair, so derivations '
+                   'appear or vanish depending on what was parsed before')
     rep.floor('agenda push sites', len(m.sites), 5)
     rep.floor('binary push sites', len(m.by_kind.get('binary', [])), 2)
     rep.note('push_sites', [(s.kind, s.line) for s in m.sites])
